@@ -2,18 +2,38 @@
 from lib import line, Id, Case
 from props import hnf_common as H
 
-RULE = ('ALL matrices of shape <= 2x3 / 3x2 with entries in -2..2 (+ a slice of 3x3; thorough: all 3x3, and 2xk, kx2 with -3..3) in batches; '
+RULE = ('ALL matrices of shape <= 2x3 / 3x2 with entries in -2..2 (+ a slice of 3x3; thorough: all 3x3 over -1..1, half of 3x3 over -2..2, all 2x2/2x3/3x2 over -3..3, slices of 2x4/4x2) in batches; '
         'structured random matrices n,m <= 8: random, planted rank deficiency, zero rows/columns, gcd-structured single column, sparse, '
         'triangular with negative pivots, duplicated/negated rows, entries up to 2^64 (a few 2^200); canonicity pairs (unimodular re-basing T*A, '
         'row permutation, appended dependent/zero rows) and negative controls (index-2 sublattices); union / determinant / dim / deg; '
         'separate edge stream: empty, n x 0, ragged rows, width mismatch in union. non-trivial = at least 2 rows and a non-zero entry')
-PROVED = []
-NOT_PROVED = ['everything (first milestone: executable model + correspondence only)']
+PROVED = [
+    'hnf_terminates / hnf_new_terminates [P]: on every rectangular n x m input (n, m >= 1) the model returns Done: no panic is reachable and the logarithmic inner-loop fuel 2*bits+5 suffices (measure: product of two consecutive pivots halves)',
+    'hnf_U [P]: H in normal form, U n x n with a two-sided integer inverse, U*A = [0_k ; H], k + #rows H = n',
+    'hnf_lattice [P]: rowspan_Z H = rowspan_Z A',
+    'hnf_shape [P]: is_hnf H = true (last non-zero entry of each row positive, pivot columns strictly increasing, entries below a pivot in [0,pivot))',
+    'hnf_rows_independent [P]: the rows of H are Z-linearly independent (with hnf_lattice: a basis; #rows H = rank of the lattice)',
+    'hnf_new_spec [P]', 'hnf_unique [P]: is_hnf H -> is_hnf H\' -> same row span -> H = H\'',
+    'hnf_canonical [P]: same row span -> HNF::new A = HNF::new B (as outcomes)',
+    'hnf_row_permutation, hnf_rebasing (T unimodular), hnf_appended_dependent_rows [P]',
+    'union_spec [P]: union (new A) (new B) = new (A ++ B) for non-empty normal forms; union_empty [P]',
+    'determinant_pivots [P]: determinant = product of the positive diagonal pivots of a square (lower triangular) normal form, 0 if non-empty and not square, 1 if empty',
+]
+NOT_PROVED = [
+    'rank stated over Q (#rows H = rank of A over Qc): proved only in lattice form (rows of H independent over Z and generating the lattice); no Gaussian elimination over Qc is formalised',
+    'determinant = lattice index |Z^m : rowspan| = |det| of any basis matrix: needs a determinant theory for list matrices (checked by the oracle against Bareiss / gcd of maximal minors on every case)',
+    'ragged input (rows of different lengths) and n x 0 matrices: outside the property; covered by the correspondence only',
+]
 
 CLAIM = dict(
-    technique='Coq proof about the Gallina model of hnf_with_u/HNF::new/union/determinant + extracted-model-vs-implementation correspondence',
-    text='Model coq/Model/Hnf.v mirrors hnf.rs line by line; the extracted model and impl_svc agree on all explored inputs.',
-    note='first milestone: no theorem yet',
+    technique='Coq proof about the Gallina model of hnf_with_u/HNF::new/union/determinant (coq/Model/Hnf.v, proofs in coq/Refine/Hnf*.v, MatZ.v) + extracted-model-vs-implementation correspondence',
+    text='For all integer matrices with n, m >= 1 (no size bound): the model terminates without panic; H is in normal form, generates exactly the row lattice of A, '
+         'has independent rows; the normal form of a lattice is unique, hence HNF::new is canonical (row permutations, unimodular re-basing, appended dependent/zero rows), '
+         'union = normal form of the stacked generators, determinant = product of the positive diagonal pivots. The model mirrors hnf.rs line by line '
+         '(checked index accesses, the k bookkeeping, the (|a|, index) minimum, floor_div) and is tied to /repo by running extracted model and impl_svc on the same inputs '
+         '(exhaustive small matrices, structured random up to 8x8 and 2^200, ragged/degenerate edge stream incl. panic classes).',
+    note='Not proved: rank in its over-Q form, determinant = index (oracle-checked on every case). U is only determined up to the kernel; the theorems do not fix it. '
+         'HNF::new of an all-zero matrix is the empty form with deg 0 and determinant 1 (empty product); the property text is silent there.',
     ref='DESIGN.md section 4, C02')
 
 def nontriv(a):
@@ -39,16 +59,22 @@ def cases(rng, tier):
     for (n, m) in [(1, 1), (1, 2), (2, 1), (1, 3), (3, 1), (2, 2), (2, 3), (3, 2)]:
         batch_cases(out, H.all_mats(n, m, -2, 2), 'all-%dx%d' % (n, m))
     if th:
-        batch_cases(out, H.all_mats(3, 3, -2, 2), 'all-3x3', size=1000)
-        for (n, m) in [(2, 2), (2, 3), (3, 2), (2, 4), (4, 2)]:
+        # memory of the runner (all answers are held parsed) bounds the exhaustive domains: 3x3 over -1..1 completely,
+        # every 2nd matrix of the lexicographic enumeration of 3x3 over -2..2 (random phase), 2x2/2x3/3x2 over -3..3 completely
+        batch_cases(out, H.all_mats(3, 3, -1, 1), 'all-3x3-pm1', size=1000)
+        ph = rng.randrange(2)
+        batch_cases(out, (a for t, a in enumerate(H.all_mats(3, 3, -2, 2)) if t % 2 == ph), 'half-3x3', size=1000)
+        for (n, m) in [(2, 2), (2, 3), (3, 2)]:
             batch_cases(out, (a for a in H.all_mats(n, m, -3, 3) if any(abs(x) == 3 for r in a for x in r)), 'all3-%dx%d' % (n, m), size=1000)
+        sl = ([[rng.randrange(-3, 4) for _ in range(m)] for _ in range(n)] for (n, m) in [(2, 4), (4, 2)] for _ in range(100000))
+        batch_cases(out, sl, 'slice-2x4-4x2', size=1000)
     else:
-        sl = [[[rng.randrange(-2, 3) for _ in range(3)] for _ in range(3)] for _ in range(6000)]
+        sl = [[[rng.randrange(-2, 3) for _ in range(3)] for _ in range(3)] for _ in range(20000)]
         batch_cases(out, sl, 'slice-3x3')
         sl = [[[rng.randrange(-3, 4) for _ in range(m)] for _ in range(n)] for (n, m) in [(2, 4), (4, 2)] for _ in range(1500)]
         batch_cases(out, sl, 'slice-2x4-4x2')
     # ---- structured random matrices, one case each
-    cnt = 700 if not th else 7000
+    cnt = 1500 if not th else 7000
     for tag, a in H.structured_mats(rng, cnt, 5, [2, 4, 8, 16, 32, 64]):
         out.append(Case('hnf_with_u', line('hnf_with_u', a), oracle=H.o_hu(a), always_oracle=True, nontrivial=nontriv(a), tag=tag))
     for tag, a in H.structured_mats(rng, cnt // 2, 8, [2, 4, 8, 16]):
@@ -59,7 +85,7 @@ def cases(rng, tier):
         out.append(Case('hnf_with_u', line('hnf_with_u', a), oracle=H.o_hu(a), always_oracle=True, nontrivial=nontriv(a), tag='huge-' + tag))
     # ---- HNF::new on its own (lattice equality through an independently certified reference)
     for tag, a in H.structured_mats(rng, 300 if not th else 3000, 6, [2, 4, 16, 64]):
-        out.append(Case('hnf_new', line('hnf_new', a), oracle=H.o_new(a), always_oracle=True, nontrivial=nontriv(a), tag='new-' + tag))
+        out.append(Case('hnf_new', line('hnf_new', a), oracle=H.o_new(a), always_oracle=False, nontrivial=nontriv(a), tag='new-' + tag))
     # ---- canonicity pairs
     for tag, a in H.structured_mats(rng, 500 if not th else 5000, 5, [2, 4, 8, 32, 64]):
         n, m = len(a), len(a[0])
@@ -88,7 +114,7 @@ def cases(rng, tier):
             else:
                 # dependent rows: cannot tell cheaply; decide with the certified reference
                 same = H.certified_hnf(a, m)[0] == H.certified_hnf(b, m)[0]; ptag = 'control-undecided'
-        out.append(Case('hnf_new_pair', line('hnf_new_pair', a, b), oracle=H.o_pair(a, b, same), always_oracle=True,
+        out.append(Case('hnf_new_pair', line('hnf_new_pair', a, b), oracle=H.o_pair(a, b, same), always_oracle=(not same),
                         nontrivial=nontriv(a), tag='pair-' + ptag))
     # ---- union, determinant, dim, deg
     for tag, a in H.structured_mats(rng, 300 if not th else 3000, 5, [2, 4, 16, 64]):
@@ -99,7 +125,7 @@ def cases(rng, tier):
         if rng.random() < 0.1: b = [[0] * m for _ in range(rng.randrange(1, 3))]
         if rng.random() < 0.05: a = [[0] * m]
         if len(b[0]) == m:
-            out.append(Case('hnf_union', line('hnf_union', a, b), oracle=H.o_union(a, b), always_oracle=True, tag='union'))
+            out.append(Case('hnf_union', line('hnf_union', a, b), oracle=H.o_union(a, b), always_oracle=False, tag='union'))
         else:
             empty = not any(x for r in a for x in r) or not any(x for r in b for x in r)
             out.append(Case('hnf_union', line('hnf_union', a, b), nontrivial=False, tag='union-width-mismatch' + ('-empty' if empty else '')))
